@@ -164,6 +164,8 @@ class Tiny:
             for x in e.elts:
                 if isinstance(x, ast.Starred):   # (*a, b): the elements of a, in place
                     v_ = self.ev(x.value)
+                    if isinstance(v_, (int, float)) or v_ is None:
+                        raise TinyRaise("TypeError")
                     if not isinstance(v_, (list, tuple)):
                         raise AnalysisError(f"tiny: unpacking of {ast.unparse(x.value)[:40]}")
                     out_.extend(v_)
@@ -534,6 +536,13 @@ class Tiny:
             if f in ("bytes", "bytearray", "memoryview") and len(e.args) == 1:
                 v = self.ev(e.args[0])
                 return list(v) if isinstance(v, (list, tuple)) else v
+            if f == "divmod" and len(e.args) == 2 and not e.keywords and "divmod" not in self.calls:
+                a_, b_ = self.ev(e.args[0]), self.ev(e.args[1])
+                if isinstance(a_, int) and isinstance(b_, int):
+                    if b_ == 0:
+                        raise TinyRaise("ZeroDivisionError")
+                    return list(divmod(a_, b_))
+                raise AnalysisError("tiny: divmod of non-integers")
             if f == "map" and len(e.args) == 2 and not e.keywords and "map" not in self.calls:
                 fn_, seq_ = self.ev(e.args[0]), self.ev(e.args[1])
                 if isinstance(fn_, Sym) and callable(fn_.methods.get("__call__")) and isinstance(seq_, (list, tuple)):
